@@ -24,7 +24,8 @@ PROP = Property(
                   "signature / opcert with KES evolutions = chain's current KES period - opcert start; s.party_id is the id the registration returned; s.stake == stake_distribution[s.party_id]; key and opcert copied from the registrant",
                   ["MithrilSignerRegistrationVerifier::verify"]),
     ],
-    replays=[dict(crate="mithril-common", file=KC, module="replays/c07_registration.rs")],
+    replays=[dict(crate="mithril-common", file=KC, module="replays/c07_registration.rs"),
+             dict(crate="mithril-stm", file="mithril-stm/src/protocol/key_registration/register.rs", module="replays/c07_stm_registration.rs")],
     assumptions=[
         "aggregator_verifier rewrites: async/.await removed; the stake-distribution iterator expression, the `match party_id.as_str()` on string patterns, `unwrap_or_default() - start` on KES periods and Option/String clones -> contract fns; .with_context removed (the stake lookup's `.with_context(..)?` becomes a match returning Err); strip_cfg future_snark",
         "Ed25519 (dalek), Sum6KES (kes-summed-ed25519) and BLS proof of possession (blst) are assumed sound: callee contracts",
